@@ -82,7 +82,7 @@ def gen_spec(rng):
             return ("sequential_block",) + tuple(stmt("seq", depth + 1, in_sub, in_par) for _ in range(rng.randint(0, 3)))
         if k == "loop":
             return ("loop", count(), ("sequential_block",) + tuple(stmt("seq", depth + 1, in_sub, in_par) for _ in range(rng.randint(0, 3))))
-        cnt = rng.choice(["", "", count() or 1, rng.choice([2, 10, 300])])
+        cnt = rng.choice(["", "", count(), rng.choice([0, 2, 10, 300])])
         return ("subcircuit_block", cnt) + tuple(stmt("seq", depth + 1, True, in_par) for _ in range(rng.randint(0, 3)))
 
     body = [stmt("top", 0, False, False) for _ in range(rng.randint(0, 4))]
